@@ -91,6 +91,8 @@ def _pattern_ok(t, bound_ids):
         if k in (z3.Z3_OP_ITE, z3.Z3_OP_AND, z3.Z3_OP_OR, z3.Z3_OP_NOT, z3.Z3_OP_EQ, z3.Z3_OP_LE, z3.Z3_OP_GE,
                  z3.Z3_OP_LT, z3.Z3_OP_GT, z3.Z3_OP_IMPLIES, z3.Z3_OP_DISTINCT, z3.Z3_OP_MUL, z3.Z3_OP_DIV,
                  z3.Z3_OP_IDIV, z3.Z3_OP_MOD, z3.Z3_OP_TO_REAL, z3.Z3_OP_TO_INT):
+            if k in (z3.Z3_OP_ITE, z3.Z3_OP_AND, z3.Z3_OP_OR, z3.Z3_OP_NOT, z3.Z3_OP_IMPLIES):
+                return False        # z3 rejects boolean structure / ite inside patterns outright
             # mul/div of bound variables make poor patterns; allow only if no bound var below
             def mentions(x):
                 if z3.is_const(x):
